@@ -7,7 +7,7 @@
      UTF-16LE with BOM or UTF-16BE with BOM decodes to that text, hence the corollary about the four forms. *)
 From Coq Require Import List NArith ZArith String Bool Lia.
 From Gen Require Import Tables.
-From Model Require Import Base Names Flt F32 Matches Detect Decode Utf Codecs Pipeline.
+From Model Require Import Base Names Flt F32 Matches Detect Decode Utf SbLangs Codecs Pipeline.
 From Proofs Require Import FloatLaws F32Laws DetectFacts DetectSound DetectWindow DetectUtf8 UtfFacts CodecFacts.
 Import ListNotations.
 Open Scope N_scope.
@@ -158,4 +158,75 @@ Proof.
     + exists t'. change (utf8_encode (65279 :: t')) with ([239; 187; 191] ++ utf8_encode t'). cbn [app].
       rewrite sig_utf8. cbn [String.eqb Ascii.eqb Bool.eqb List.length skipn]. exact (proj1 (unicode_forms_decode B t' Ht')).
     + exists (c :: t'). rewrite (utf8_text_no_sig (c :: t') Ht Hne). exact (proj1 (unicode_forms_decode B (c :: t') Ht)).
+Qed.
+
+(* ---------- single-byte presentations: "any encoding able to represent it" ---------- *)
+(* the byte a single-byte table encodes a character with: the first byte that decodes to it *)
+Definition sb_encode_char (T : list N) (c : N) : option N :=
+  find (fun b => match sb_lookup T b with Some c' => c' =? c | None => false end) (map N.of_nat (seq 0 256)).
+Fixpoint sb_encode (T : list N) (t : text) : option bytes :=
+  match t with
+  | [] => Some []
+  | c :: r => match sb_encode_char T c, sb_encode T r with Some b, Some br => Some (b :: br) | _, _ => None end
+  end.
+
+Lemma sb_encode_char_decodes T c b : sb_encode_char T c = Some b -> sb_lookup T b = Some c.
+Proof.
+  unfold sb_encode_char. intro H. apply find_some in H as [_ H].
+  destruct (sb_lookup T b) as [c'|]; [|discriminate]. apply N.eqb_eq in H. subst. reflexivity.
+Qed.
+
+Lemma sb_round_trip T t : forall b, sb_encode T t = Some b -> sb_closed T b = Some t.
+Proof.
+  induction t as [|c r IH]; intros b H; cbn [sb_encode] in H.
+  - inversion H; subst. reflexivity.
+  - destruct (sb_encode_char T c) as [b0|] eqn:E0; [|discriminate]. destruct (sb_encode T r) as [br|] eqn:Er; [|discriminate].
+    inversion H; subst. specialize (IH br eq_refl). unfold sb_closed in *. cbn [sb_all forallb sb_chars flat_map].
+    rewrite (sb_encode_char_decodes T c b0 E0). fold (sb_all T br). fold (sb_chars T br).
+    destruct (sb_all T br); [|discriminate]. inversion IH; subst. reflexivity.
+Qed.
+
+(* every presentation of a text that a modelled codec can read back: the four Unicode forms and the text encoded
+   by any single-byte table that has all its characters *)
+Inductive text_form (t : text) : bytes -> string -> Prop :=
+| form_unicode b e : unicode_form t b e -> text_form t b e
+| form_single_byte e T b : is_multi_byte e = false -> sb_table e = Some T -> sb_encode T t = Some b -> text_form t b e.
+
+Lemma text_form_decodes B t b e : Forall scalar t -> text_form t b e ->
+  sdecode F32ops (pipeline_dec B) e (strip b e) = Some t.
+Proof.
+  intros Ht F. destruct F as [b e F|e T b Hmb HT Hb].
+  - exact (unicode_form_decodes B t b e Ht F).
+  - rewrite (strip_not_multibyte b e Hmb). cbn [sdecode pipeline_dec]. rewrite (modelled_not_multibyte e Hmb), HT.
+    cbn [codec_strict]. exact (sb_round_trip T t b Hb).
+Qed.
+
+Theorem all_forms_same_chaos B :
+  (forall e l t, b_sdecode B e l = Some t -> len t <= len l) ->
+  forall t b1 e1 b2 e2 cfg1 cfg2 inc1 exc1 inc2 exc2 m1 m2 x1 x2,
+    Forall scalar t -> text_form t b1 e1 -> text_form t b2 e2 ->
+    len b1 <= chunk_size F32ops cfg1 * steps F32ops cfg1 -> len b1 <= TOO_BIG_SEQUENCE ->
+    len b2 <= chunk_size F32ops cfg2 * steps F32ops cfg2 -> len b2 <= TOO_BIG_SEQUENCE ->
+    threshold F32ops cfg1 = threshold F32ops cfg2 ->
+    probe F32ops (pipeline_dec B) (make_ctx F32ops (pipeline_dec B) b1 cfg1 inc1 exc1) e1 = Ok (Accept F32ops m1 x1) ->
+    probe F32ops (pipeline_dec B) (make_ctx F32ops (pipeline_dec B) b2 cfg2 inc2 exc2) e2 = Ok (Accept F32ops m2 x2) ->
+    m_text F32ops m1 = Some t /\ m_text F32ops m2 = Some t /\ m_chaos F32ops m1 = m_chaos F32ops m2.
+Proof.
+  intros HB t b1 e1 b2 e2 cfg1 cfg2 inc1 exc1 inc2 exc2 m1 m2 x1 x2 Ht F1 F2 C1 S1 C2 S2 Hthr P1 P2.
+  apply (same_text_same_chaos_across_inputs F32ops (pipeline_dec B) F32_FloatLaws (pipeline_dec_decode_len B HB)
+           b1 b2 cfg1 cfg2 inc1 exc1 inc2 exc2 e1 e2 m1 m2 x1 x2 t); try assumption.
+  - exact (text_form_decodes B t b1 e1 Ht F1).
+  - exact (text_form_decodes B t b2 e2 Ht F2).
+Qed.
+
+(* non-vacuity: "Привет" in windows-1251 and in koi8-r are two single-byte presentations of one text *)
+Example cyrillic_forms :
+  exists T1 T2 b1 b2, sb_table "windows-1251" = Some T1 /\ sb_table "koi8-r" = Some T2
+    /\ sb_encode T1 [1055; 1088; 1080; 1074; 1077; 1090] = Some b1 /\ sb_encode T2 [1055; 1088; 1080; 1074; 1077; 1090] = Some b2 /\ b1 <> b2.
+Proof.
+  destruct (sb_table "windows-1251") as [T1|] eqn:E1; [|vm_compute in E1; discriminate].
+  destruct (sb_table "koi8-r") as [T2|] eqn:E2; [|vm_compute in E2; discriminate].
+  vm_compute in E1. vm_compute in E2. inversion E1; inversion E2; subst.
+  eexists; eexists; eexists; eexists. split; [reflexivity|]. split; [reflexivity|].
+  split; [vm_compute; reflexivity|]. split; [vm_compute; reflexivity|]. discriminate.
 Qed.
